@@ -372,8 +372,10 @@ pub fn run(rec: &mut Rec) {
                     }
                 }
                 // k = 2 over owned joins (thorough)
-                if rec.thorough() && owned0[i] {
-                    for j in targets.iter().copied().filter(|j| *j > i && owned0[*j]) {
+                // k = 2: pairs over the FIRST dynamic instance of every owned join site
+                let first_of_site = |x: usize| -> bool { owned0[x] && sites0[..x].iter().zip(owned0[..x].iter()).all(|(s, o)| !(*o && *s == sites0[x])) };
+                if rec.thorough() && first_of_site(i) {
+                    for j in targets.iter().copied().filter(|j| *j > i && first_of_site(*j)) {
                         for v in [1u8, 4, 7] {
                             for u in [1u8, 2, 7] {
                                 let mut tape = vec![0u8; j + 1];
